@@ -4,7 +4,7 @@
    lookup finds. *)
 From CC Require Import Bytes Codec Utf8 Lines Json Sri Record Fs Prog Api Crash
   BytesP CodecP LinesP LsP FsP ProgP SriP RecordP IndexP ReadP WriteP CommitP RemoveP LsWholeP CrashP CrashIdxP KeepP
-  JsonP RecCodecP MetaP HistP.
+  JsonP RecCodecP MetaP HistP Sess TotalP ConfineP SessP.
 From Coq Require Import Lia.
 Local Open Scope N_scope.
 
@@ -201,7 +201,7 @@ Lemma lidx_cstep f o :
 Proof.
   intros Hinv Hl Hok.
   assert (is_index (InCache [index_dir])) as Hidx by (exists []; reflexivity).
-  destruct o as [fl a key data now|fl key o cs now|fl a data|key now|a d]; cbn [c_run c_ok c_indexes] in *.
+  destruct o as [fl a key data now|fl key o cs now|fl a data|key now|a d|key]; cbn [c_run c_ok c_indexes] in *.
   - (* write = streamed write with zero or one chunk *)
     pose proof (opts_ok_wf_rec hash key _ now Hok) as Hwf.
     unfold write. rewrite (oneshot_stream hash _ _ _ _ _ _ Hinv).
@@ -233,20 +233,50 @@ Proof.
     { intros l Hli. apply Hfr0. intros cp E X. subst l. rewrite (content_path_computed hash a d HL) in E. inversion E; subst cp.
       eapply index_not_content; [exact Hli|eexists; reflexivity]. }
     split; [exact (lidx_frame _ _ Hl Hfr)|]. split; [discriminate|]. intros H. rewrite (is_dir_frame _ _ _ (Hfr _ Hidx)). exact H.
+  - (* full removal: index locations are as before or gone; index-v5/ itself stays *)
+    set (f' := snd (run (remove_fully hash key) f)).
+    destruct (bucket_path_shape hash key) as [bx [by_ [bz Eb]]].
+    assert (forall l, l <> InCache (bucket_path hash key) -> is_index l -> lookup f' l = lookup f l) as Hoth.
+    { intros l N Hli. unfold f'. apply (remove_fully_frame hash); [exact N|].
+      intros m cp _ Ecp X. subst l. destruct (content_path_shape _ _ Ecp) as [c1 [c2 [c3 [c4 ->]]]].
+      eapply index_not_content; [exact Hli|eexists; reflexivity]. }
+    assert (lookup f' (InCache (bucket_path hash key)) = lookup f (InCache (bucket_path hash key)) \/
+            lookup f' (InCache (bucket_path hash key)) = None) as Hbk.
+    { unfold f'. rewrite (remove_fully_run hash f key (proj1 Hl)).
+      assert (forall g, lookup g (InCache (bucket_path hash key)) = lookup f (InCache (bucket_path hash key)) ->
+                lookup (snd (run (step_ok (Unlink (InCache (bucket_path hash key)))) g)) (InCache (bucket_path hash key)) = lookup f (InCache (bucket_path hash key)) \/
+                lookup (snd (run (step_ok (Unlink (InCache (bucket_path hash key)))) g)) (InCache (bucket_path hash key)) = None) as Hun.
+      { intros g Eg. rewrite run_unlink. destruct (lookup g (InCache (bucket_path hash key))) as [[xx| |tt]|] eqn:E; cbn [snd];
+          try (right; apply lookup_remove_eq); left; congruence. }
+      destruct (abs_idx hash f key) as [m|]; [|apply Hun; reflexivity].
+      destruct (content_path (m_sri m)) as [cp|] eqn:Ecp; [|left; reflexivity].
+      destruct (content_path_shape _ _ Ecp) as [c1 [c2 [c3 [c4 ->]]]].
+      assert (InCache [content_dir; c1; c2; c3; c4] <> InCache (bucket_path hash key)) as Hne
+        by (rewrite Eb; intros X; inversion X as [[H1 H2]]; try (vm_compute in H1; discriminate)).
+      destruct (lookup f (InCache [content_dir; c1; c2; c3; c4])) as [[xx| |tt]|]; cbn [snd];
+        try (left; reflexivity); apply Hun; try reflexivity; apply lookup_remove_neq; exact Hne. }
+    assert (forall l, is_index l -> lookup f' l = lookup f l \/ lookup f' l = None) as Hsh.
+    { intros l Hli. destruct (loc_eq_dec l (InCache (bucket_path hash key))) as [->|N]; [exact Hbk|left; apply Hoth; assumption]. }
+    split; [|split; [discriminate|]].
+    + destruct Hl as [Hi [Hd Hb]]. split; [|split].
+      * intros p n Hln. destruct (Hsh (InCache (index_dir :: p))) as [E|E]; [eexists; reflexivity| |]; rewrite E in Hln; [exact (Hi p n Hln)|discriminate].
+      * intros p n Hln. destruct (Hsh (InCache (index_dir :: p))) as [E|E]; [eexists; reflexivity| |]; rewrite E in Hln; [exact (Hd p n Hln)|discriminate].
+      * intros a b c d Hln e He. destruct (Hsh (InCache [index_dir; a; b; c])) as [E|E]; [eexists; reflexivity| |]; rewrite E in Hln; [exact (Hb a b c d Hln e He)|discriminate].
+    + intros H. rewrite (is_dir_frame f f' [index_dir]); [exact H|]. apply Hoth; [rewrite Eb; discriminate|exact Hidx].
 Qed.
 
 (* over whole histories, together with the refinement of HistP *)
 Theorem lhistory (h : list cop) f0 s0 :
-  CInv hash f0 s0 -> LInv f0 -> forallb (c_ok hash) h = true -> NoColl hash (c_all (fold_left c_step h s0)) ->
+  CInv hash f0 s0 -> LInv f0 -> forallb (c_ok hash) h = true -> NoColl hash (c_all (fold_left (c_step hash) h s0)) ->
   let f := fold_left (c_run hash) h f0 in
-  CInv hash f (fold_left c_step h s0) /\ LInv f /\
+  CInv hash f (fold_left (c_step hash) h s0) /\ LInv f /\
   (existsb c_indexes h = true \/ is_dir f0 [index_dir] = true -> is_dir f [index_dir] = true).
 Proof.
   revert f0 s0. induction h as [|o h IH]; intros f0 s0 H0 Hl0 Hok Hnc; cbn [fold_left existsb forallb] in *.
   - split; [exact H0|]. split; [exact Hl0|]. intros [X|X]; [discriminate|exact X].
   - apply andb_true_iff in Hok as [Hok1 Hok2].
-    assert (CInv hash (c_run hash f0 o) (c_step s0 o)) as H1.
-    { apply (cinv_step hash HL); [exact H0|exact Hok1|]. destruct (c_all_fold h (c_step s0 o)) as [pre E]. rewrite E in Hnc. exact (NoColl_suffix hash _ _ Hnc). }
+    assert (CInv hash (c_run hash f0 o) (c_step hash s0 o)) as H1.
+    { apply (cinv_step hash HL); [exact H0|exact Hok1|]. destruct (c_all_fold hash h (c_step hash s0 o)) as [pre E]. rewrite E in Hnc. exact (NoColl_suffix hash _ _ Hnc). }
     destruct (lidx_cstep f0 o (proj1 H0) (proj2 Hl0) Hok1) as [L1 [L2 L3]].
     assert (LInv (c_run hash f0 o)) as Hl1.
     { split; [|exact L1]. destruct o; cbn [c_run]; apply nodup_run; exact (proj1 Hl0). }
@@ -259,8 +289,8 @@ Qed.
 (* C10 after any history from the empty cache: the listing is exactly the keys the specification map holds, each with the
    entry a lookup finds (its integrity the digest of the last data written under the key) *)
 Theorem listing_after_history (h : list cop) :
-  forallb (c_ok hash) h = true -> NoColl hash (c_all (fold_left c_step h cspec0)) -> existsb c_indexes h = true ->
-  let f := fold_left (c_run hash) h [] in let s := fold_left c_step h cspec0 in
+  forallb (c_ok hash) h = true -> NoColl hash (c_all (fold_left (c_step hash) h cspec0)) -> existsb c_indexes h = true ->
+  let f := fold_left (c_run hash) h [] in let s := fold_left (c_step hash) h cspec0 in
   exists items, run (ls hash) f = (Ok items, f) /\
     (forall it, In it items -> exists m, it = LMeta m) /\
     (forall m, In (LMeta m) items <-> abs_idx hash f (m_key m) = Some m) /\
